@@ -3,8 +3,9 @@
    InitNodeContextHierarchy / setupNodes numbering) from ANY configuration forest:
      [flatten_topo]  a node's children and handler have larger indices than the node;
      [flatten_fed]   every entry of the table is a root or is some entry's child / handler.
-   The remaining parts of [live_net] depend on configured values (workers >= 1, buffersize >= 1, both
-   enforced by config validation) and on [wf_net], and are checked per table by [live_net_b]. *)
+   [wf_net (flatten cfgs)] is proved in ExecProgressFlat2.v ([flatten_wf]); the remaining parts of
+   [live_net] depend on configured values only (workers >= 1, buffersize >= 1, both enforced by config
+   validation). *)
 From Coq Require Import List ZArith Bool Arith Lia.
 From FB Require Import Model.Exec Model.Settle Model.ExecInv Proofs.ExecProgress.
 From FB Require Proofs.ExecSpec.
